@@ -352,6 +352,39 @@ M("c07-benign-compare", "C07", "arraylist.c",
   "\tif (idx > SIZE_T_MAX - 1)\n\t\treturn -1;\n\tif (array_list_expand_internal(arr, idx + 1))\n\t\treturn -1;\n\tif (idx < arr->length",
   "\tif (idx >= SIZE_T_MAX)\n\t\treturn -1;\n\tif (array_list_expand_internal(arr, idx + 1))\n\t\treturn -1;\n\tif (idx < arr->length", expect="silent")
 
+# ---- C06 -------------------------------------------------------------------------------------
+M("c06-insert-no-count", "C06", "linkhash.c",
+  "\tt->table[n].v = v;\n\tt->count++;\n", "\tt->table[n].v = v;\n", needle="count")
+M("c06-insert-prepend", "C06", "linkhash.c",
+  "\t\tt->tail->next = &t->table[n];\n\t\tt->table[n].prev = t->tail;\n\t\tt->table[n].next = NULL;\n\t\tt->tail = &t->table[n];",
+  "\t\tt->head->prev = &t->table[n];\n\t\tt->table[n].next = t->head;\n\t\tt->table[n].prev = NULL;\n\t\tt->head = &t->table[n];", needle="C06.R3i")
+M("c06-delete-tail-case", "C06", "linkhash.c",
+  "\t\tt->tail->prev->next = NULL;\n\t\tt->tail = t->tail->prev;", "\t\tt->tail = t->tail->prev;", needle="C06.R3d")
+M("c06-delete-empty-instead-of-freed", "C06", "linkhash.c",
+  "\tt->table[n].k = LH_FREED;", "\tt->table[n].k = LH_EMPTY;", needle="C06.R3d")
+M("c06-delete-free-after", "C06", "linkhash.c",
+  "\tif (t->free_fn)\n\t\tt->free_fn(e);\n\tt->table[n].v = NULL;\n\tt->table[n].k = LH_FREED;",
+  "\tt->table[n].v = NULL;\n\tt->table[n].k = LH_FREED;\n\tif (t->free_fn)\n\t\tt->free_fn(e);", needle="free_fn")
+M("c06-lookup-stops-at-freed", "C06", "linkhash.c",
+  "\t\tif (t->table[n].k == LH_EMPTY)\n\t\t\treturn NULL;", "\t\tif (t->table[n].k == LH_EMPTY || t->table[n].k == LH_FREED)\n\t\t\treturn NULL;", needle="C06.R4")
+M("c06-lookup-equal-on-sentinel", "C06", "linkhash.c",
+  "\t\tif (t->table[n].k != LH_FREED && t->equal_fn(t->table[n].k, k))", "\t\tif (t->equal_fn(t->table[n].k, k))", needle="equal_fn")
+M("c06-probe-no-wrap", "C06", "linkhash.c",
+  "\t\tif ((int)++n == t->size)\n\t\t\tn = 0;\n\t}\n\n\tt->table[n].k = k;", "\t\t++n;\n\t}\n\n\tt->table[n].k = k;", needle="lh_table_insert_w_hash")
+M("c06-resize-loses-constant-flag", "C06", "linkhash.c",
+  "\t\tif (ent->k_is_constant)\n\t\t\topts = JSON_C_OBJECT_ADD_CONSTANT_KEY;", "", needle="constant")
+M("c06-resize-updates-count", "C06", "linkhash.c",
+  "\tt->size = new_size;\n\tt->head = new_t->head;", "\tt->size = new_size;\n\tt->count = 0;\n\tt->head = new_t->head;", needle="count")
+M("c06-replace-reinserts", "C06", "json_object.c",
+  "\tlh_entry_set_val(existing_entry, val);\n\treturn 0;", "\tlh_table_delete_entry(JC_OBJECT(jso)->c_object, existing_entry);\n\treturn lh_table_insert_w_hash(JC_OBJECT(jso)->c_object, strdup(key), val, hash, opts);", needle="C06.R2")
+M("c06-foreach-late-next", "C06", "json_object.h",
+  "\t\t\t     entry_next##key = lh_entry_next(entry##key);        \\\n\t\t     };                                                          \\\n\t\t     entry##key;                                                 \\\n\t     });                                                                 \\\n\t     entry##key = entry_next##key)",
+  "\t\t     };                                                          \\\n\t\t     entry##key;                                                 \\\n\t     });                                                                 \\\n\t     entry##key = lh_entry_next(entry##key))", needle="C06.R6")
+M("c06-outside-write", "C06", "json_object.c",
+  "\tlh_entry_set_val(existing_entry, val);\n\treturn 0;", "\texisting_entry->v = val;\n\treturn 0;", needle="C06.R1")
+M("c06-benign-probe-form", "C06", "linkhash.c",
+  "\t\tif ((int)++n == t->size)\n\t\t\tn = 0;\n\t}\n\n\tt->table[n].k = k;", "\t\tn = n + 1;\n\t\tif ((int)n >= t->size)\n\t\t\tn = 0;\n\t}\n\n\tt->table[n].k = k;", expect="silent")
+
 
 def sh(cmd, **kw):
     return subprocess.run(cmd, shell=isinstance(cmd, str), stdout=subprocess.PIPE, stderr=subprocess.STDOUT, text=True, **kw)
